@@ -39,7 +39,7 @@ try:
         if rc != 0:
             print(sid, "PATCH-DOES-NOT-APPLY"); sh("git checkout -- . && git clean -fdq", cwd=wt); continue
         only = ""
-        if sel.get(sid):
+        if sel.get(sid) and not os.environ.get("SEEDREGRESS_FULL"):
             only = "-only 'H_%s_(%s)$'" % (prop, "|".join(sel[sid]))
         rc, o = sh(f"timeout 1500 {vc}/bin/gosym check {prop} quick -repo {wt} -verif {vc} {only} 2>/dev/null | grep -E '^(VIOLATION|INCONCLUSIVE|RESULT)' | cut -c1-160", timeout=1700)
         viol = [l for l in o.splitlines() if l.startswith("VIOLATION")]
